@@ -312,9 +312,20 @@ def splice_fn(out: Out, it: Item, file: str, fid: str, *, ret: str = 'res',
 
     lk = body_loops(it)
     for ordinal, spec in loops.items():
-        if ordinal >= len(lk):
-            raise AnchorLost(f'{fid}: loop ordinal {ordinal} not found ({len(lk)} loops in {file}:{it.line_span})')
-        kw = lk[ordinal]
+        if spec.get('match'):
+            # the loop is identified by a fragment of its header (robust against loops added before it); the ordinal is the fallback
+            cand = [k_ for k_ in lk if spec['match'] in ' '.join(it.src[toks[k_].start:toks[loop_body_open(toks, k_)].start].split())]
+            if len(cand) == 1:
+                ordinal_kw = cand[0]
+            elif len(cand) == 0:
+                raise AnchorLost(f"{fid}: no loop whose header contains {spec['match']!r} in {file}:{it.line_span}")
+            else:
+                raise AnchorLost(f"{fid}: {len(cand)} loops whose header contains {spec['match']!r}")
+            kw = ordinal_kw
+        else:
+            if ordinal >= len(lk):
+                raise AnchorLost(f'{fid}: loop ordinal {ordinal} not found ({len(lk)} loops in {file}:{it.line_span})')
+            kw = lk[ordinal]
         want_kw = spec.get('kind')
         if want_kw and toks[kw].text != want_kw:
             raise AnchorLost(f'{fid}: loop ordinal {ordinal} is `{toks[kw].text}`, expected `{want_kw}`')
